@@ -14,6 +14,6 @@ def _t(design, extra=""):
 TEXT = {
     "C01": _t("8/C01"), "C02": _t("8/C02"), "C03": _t("8/C03"), "C04": _t("8/C04", "The special-value class product is enumerated exhaustively each run."),
     "C05": _t("8/C05"), "C14": _t("8/C14"), "C19": _t("8/C19"), "C20": _t("8/C20"),
-    "C06": _t("8/C06"), "C07": _t("8/C07"), "C18": _t("8/C18"),
+    "C17": _t("8/C17"), "C06": _t("8/C06"), "C07": _t("8/C07"), "C18": _t("8/C18"),
     "C08": _t("8/C08"), "C09": _t("8/C09"), "C10": _t("8/C10"), "C16": _t("8/C16"),
 }
